@@ -392,7 +392,7 @@ func c11Pure(env *core.Env, seed uint64, kind string, depth int) {
 // member names, roots, function names and operands: however the token is classified, every rendering of the
 // tree must be classified the same way.
 var c11Words = []string{"day", "days", "year", "years", "month", "months", "week", "weeks", "hour", "hours", "minute", "minutes", "second", "seconds", "millisecond", "milliseconds",
-	"div", "mod", "and", "or", "xor", "implies", "is", "as", "in", "contains", "true", "false", "$this", "$index", "$total", "where", "exists", "Patient", "name", "`day`", "`div`", "`given`"}
+	"div", "mod", "and", "or", "xor", "implies", "is", "as", "in", "contains", "true", "false", "$this", "$index", "$total", "where", "exists", "Patient", "Observation", "HumanName", "Resource", "name", "`day`", "`div`", "`given`"}
 
 func c11Word(env *core.Env, word string, shape int) {
 	defer env.In("word", word, shape)()
@@ -415,8 +415,14 @@ func c11Word(env *core.Env, word string, shape int) {
 		tree = &gen.Expr{K: "func", Text: "exists", Recv: true, Kids: []*gen.Expr{member(pat, "name"), member(&gen.Expr{K: "this", Text: "$this"}, word)}} // Patient.name.exists($this.<word>)
 	case 6:
 		tree = &gen.Expr{K: "bin", Text: "and", Kids: []*gen.Expr{member(pat, word), member(pat, "active")}}
-	default:
+	case 7:
 		tree = &gen.Expr{K: "index", Kids: []*gen.Expr{member(member(pat, "name"), word), {K: "lit", Text: "0"}}}
+	case 8:
+		tree = member(&gen.Expr{K: "ident", Text: "name"}, word) // name.<word> (un-rooted)
+	case 9:
+		tree = member(member(&gen.Expr{K: "ident", Text: "contact"}, "name"), word) // contact.name.<word>
+	default:
+		tree = member(member(w, "name"), "given") // <word>.name.given
 	}
 	env.Cover("keyword-member")
 	c11Check(env, tree, uint64(shape)*131+uint64(len(word)), "word")
@@ -455,7 +461,7 @@ func runC11(env *core.Env) {
 	}
 	k := 0
 	for _, w := range c11Words {
-		for shape := 0; shape < 8; shape++ {
+		for shape := 0; shape < 11; shape++ {
 			k++
 			if env.Mine(k) {
 				c11Word(env, w, shape)
